@@ -13,8 +13,9 @@ import BigtreeProofs.Properties.C12
 read-only functions do: identity, then `.left` and `.right` recursively, an empty slot is `BTree.nil`.
 
 1. the read-back of a well-formed store does not depend on the fuel (`btreeOf_fuel`, `btreeOf_unfold`);
-2. its identities are the node and its descendants, each once (`btreeOf_ids`); `.left` / `.right` of the
-   store are the two subtrees, and they agree with the parent pointers (`btreeOf_slots`);
+2. its identities are the node and its descendants, each once (`btreeOf_ids`), the trees of the parentless
+   nodes partition the node set (`btree_partition`); `.left` / `.right` of the store are the two subtrees, and
+   they agree with the parent pointers (`btreeOf_slots`);
 3. transfer: in every state reachable by a history of `BinaryNode` calls, the in-order iterator of C04
    lists every descendant-or-self once, left subtree before node before right subtree
    (`inorder_transfer`), and `is_leaf` of C12 holds exactly of the nodes with two empty slots
@@ -70,6 +71,18 @@ theorem btreeOf_ids (s : Store) (hw : BWF s) (names : Nat → Str) (f : Nat) (hf
    fun x => by rw [mem_inorder_btreeOf hw names f hf r, below_iff_anc hw]⟩
 
 example : inorder (btreeOf demo (fun _ => []) 6 0) = [3, 1, 0, 2, 4] ∧ anc demo 6 4 = [2, 0] := by decide
+
+/-- the read-backs of the parentless nodes partition the node set: every node appears in the tree of exactly
+one root (and there exactly once, `btreeOf_ids`) -/
+theorem btree_partition (s : Store) (hw : BWF s) (names : Nat → Str) (x : Nat) :
+    ∃ r, s.parent r = none ∧ x ∈ inorder (btreeOf s names s.n r) ∧
+      ∀ r', s.parent r' = none → x ∈ inorder (btreeOf s names s.n r') → r' = r := by
+  obtain ⟨r, hr, hb, hu⟩ := exists_unique_root hw x
+  refine ⟨r, hr, (mem_inorder_btreeOf hw names s.n (Nat.le_refl _) r x).2 hb, fun r' hr' hm => ?_⟩
+  exact hu r' hr' ((mem_inorder_btreeOf hw names s.n (Nat.le_refl _) r' x).1 hm)
+
+example : demo.parent 0 = none ∧ demo.parent 5 = none ∧ 4 ∈ inorder (btreeOf demo (fun _ => []) demo.n 0) ∧
+    inorder (btreeOf demo (fun _ => []) demo.n 5) = [5] := by decide
 
 /-- the raw list of the store is `[left, right]`; a node sits in at most one of the two slots; the occupant
 of a slot names the owner as its parent and every child sits in a slot of its parent; and the two subtrees
